@@ -17,7 +17,7 @@ PtrTypes    == {"ptr_int", "ptr_cint", "ptr_char", "ptr_void", "ptr_inc", "ptr_S
 FnTypes     == {"fn_ii", "fn_vv", "fn_vp", "fn_vs", "fn_var"}
 StructTypes == {"struct_S", "struct_T", "union_U"}
 AllTypes    == ArithTypes \cup PtrTypes \cup FnTypes \cup StructTypes \cup
-               {"arr_int", "arr_char", "void", "struct_I"}
+               {"arr_int", "arr_cint", "arr_char", "void", "struct_I"}
 
 (* C spelling of a type name as a declaration of the identifier @ (drop @ for the type name) *)
 CType == [int |-> "int @", bool |-> "_Bool @", double |-> "double @", ldouble |-> "long double @",
@@ -26,7 +26,7 @@ CType == [int |-> "int @", bool |-> "_Bool @", double |-> "double @", ldouble |-
           ptr_fn_ii |-> "int (*@)(int)", ptr_fn_vv |-> "void (*@)(void)", ptr_fn_vp |-> "void (*@)(int *)", ptr_fn_vs |-> "void (*@)(struct S)", ptr_fn_var |-> "int (*@)(int, int, ...)",
           fn_ii |-> "int @(int)", fn_vv |-> "void @(void)", fn_vp |-> "void @(int *)", fn_vs |-> "void @(struct S)", fn_var |-> "int @(int, int, ...)",
           struct_S |-> "struct S @", struct_T |-> "struct T @", union_U |-> "union U @",
-          arr_int |-> "int @[4]", arr_char |-> "char @[4]", arr_unk |-> "int @[]",
+          arr_int |-> "int @[4]", arr_cint |-> "const int @[2]", arr_char |-> "char @[4]", arr_unk |-> "int @[]",
           void |-> "void @", struct_I |-> "struct I @"]
 
 IsArith(t)  == t \in ArithTypes
@@ -96,6 +96,21 @@ EntTab == [
   gsfn |-> [Obj("fn_vs", "void gsfn(struct S);", "gsfn") EXCEPT !.lv = FALSE, !.cst = TRUE],
   gvar |-> [Obj("fn_var", "int gvar(int, int, ...);", "gvar") EXCEPT !.lv = FALSE, !.cst = TRUE],
   gcbf |-> [Obj("int", "struct CB gcb;", "gcb.cb") EXCEPT !.bf = TRUE, !.cq = TRUE],
+  (* lvalues whose qualifier is INHERITED: the array is a member of a qualified struct (reached by . or ->, directly, nested,
+     2-D) or has a qualified typedef'd array type; 6.7.3p9: the qualifier applies to the elements.  gss*/gssp* are the unqualified twins *)
+  gcsa1  |-> [Obj("int", "const struct SA gcs;", "gcs.a[1]") EXCEPT !.cq = TRUE],
+  gcspa1 |-> [Obj("int", "const struct SA *gcsp;", "gcsp->a[1]") EXCEPT !.cq = TRUE],
+  gcspin |-> [Obj("int", "", "gcsp->in.m[1]") EXCEPT !.cq = TRUE],
+  gcspm2 |-> [Obj("int", "", "gcsp->m2[1][1]") EXCEPT !.cq = TRUE],
+  gta1   |-> [Obj("int", "const A2 gta;", "gta[1]") EXCEPT !.cq = TRUE],
+  gcap1  |-> [Obj("int", "const A2 *gcap;", "(*gcap)[1]") EXCEPT !.cq = TRUE],
+  gvsa1  |-> [Obj("int", "volatile struct SA gvs;", "gvs.a[1]") EXCEPT !.vq = TRUE],
+  gssa1  |-> Obj("int", "struct SA gss;", "gss.a[1]"),
+  gsspa1 |-> Obj("int", "struct SA *gssp;", "gssp->a[1]"),
+  gcspa  |-> Obj("arr_cint", "", "gcsp->a"),
+  gcapd  |-> Obj("arr_cint", "", "*gcap"),
+  gta    |-> [Obj("arr_cint", "", "gta") EXCEPT !.cst = TRUE],
+  gsspa  |-> Obj("arr_int", "", "gssp->a"),
   (* constant zeros of pointer type: only the void one (and the integer k0) is a null pointer constant, 6.3.2.3p3 *)
   kpi  |-> Val("ptr_int", "(int *)0"),
   kpc  |-> Val("ptr_char", "(char *)0"),
@@ -123,6 +138,8 @@ PreludeTypes == <<
   "union U { int ua; float ub; };",
   "enum E { EK = 7 };",
   "struct CB { const int cb : 3; int x; };",
+  "struct SA { int a[2]; int m2[2][2]; struct { int m[2]; } in; int x; };",
+  "typedef int A2[2];",
   "#define NIL ((td_t *)0)",   \* td_t is int; no keyword in the body: pp.c:keyword() frees the spelling of a keyword token that the macro body still owns, so a second use of such a macro reads freed memory (reported, C12/C19)
   "#define MF(a, b) ((a) + (b))",
   "#define MG(a, b) ((a) b)",
@@ -133,11 +150,11 @@ PreludeTypes == <<
 
 (* value type of an operand after lvalue conversion / array and function decay (6.3.2.1) *)
 VT(o) == LET t == Ent(o).ty IN
-  CASE t = "arr_int" -> "ptr_int" [] t = "arr_char" -> "ptr_char"
+  CASE t = "arr_int" -> "ptr_int" [] t = "arr_cint" -> "ptr_cint" [] t = "arr_char" -> "ptr_char"
     [] t = "fn_ii" -> "ptr_fn_ii" [] t = "fn_vv" -> "ptr_fn_vv" [] t = "fn_vp" -> "ptr_fn_vp" [] t = "fn_vs" -> "ptr_fn_vs" [] t = "fn_var" -> "ptr_fn_var"
     [] OTHER -> t
 IsFnDesig(o)  == Ent(o).ty \in FnTypes
-IsArrayObj(o) == Ent(o).ty \in {"arr_int", "arr_char"}
+IsArrayObj(o) == Ent(o).ty \in {"arr_int", "arr_cint", "arr_char"}
 IsNullConst(o) == o \in {"k0", "kv"}
 (* modifiable lvalue (6.3.2.1p1): lvalue, not array, not const, complete *)
 ModLvalue(o) == Ent(o).lv /\ ~IsArrayObj(o) /\ ~Ent(o).cq
